@@ -88,6 +88,23 @@ def gen_case(rng, tier, idx):
             s["highFrequencySubmitRate"] = rng.choice([0.0, 0.3, 0.7, 1.0])
         cfg["simulation"]["sessions"].append(s)
     add_builtin_events(rng, cfg, p_each=0.45)
+    if idx % 20 == 7:
+        # a halt that starts in the very first step: zero threshold, crossing orders at time 0
+        s0 = cfg["simulation"]["sessions"][0]
+        s0.update({"withOrderPlacement": True, "withOrderExecution": True, "maxNormalOrders": 5, "iterationSteps": 25})
+        for k, v in cfg.items():
+            if isinstance(v, dict) and "program" in v and v["class"] == "ScriptAgent":
+                v["program"] = {"p_act": 1.0, "max_batch": 2, "actions": [
+                    [1, {"a": "both", "off": [1, 3], "vol": [1, 3], "ttl": [None, 4]}],
+                    [1, {"a": "limit", "side": "any", "off": [-2, 2], "vol": [1, 3], "ttl": [None, 4]}]]}
+        for k in [k for k, v in cfg.items() if isinstance(v, dict) and v.get("class") == "TradingHaltRule"]:
+            for s_ in cfg["simulation"]["sessions"]:
+                if k in s_.get("events", []):
+                    s_["events"].remove(k)
+            del cfg[k]
+        cfg["HALT0"] = {"class": "TradingHaltRule", "targetMarkets": list(cfg["simulation"]["markets"]),
+                        "triggerChangeRate": 0.0, "haltingTimeLength": rng.choice([1, 2, 3])}
+        s0.setdefault("events", []).append("HALT0")
     if rng.random() < 0.4:
         cfg["PROBE"] = gen_probe(rng, cfg, 0, total)
         rng.choice(cfg["simulation"]["sessions"]).setdefault("events", []).append("PROBE")
@@ -131,6 +148,9 @@ class C09Monitor:
         self.cfg_sessions = case["config"]["simulation"]["sessions"]
         self.has_halt_rule = any(isinstance(v, dict) and v.get("class") == "TradingHaltRule" and v.get("enabled", True)
                                  for v in case["config"].values())
+        self.max_halt_len = max([v.get("haltingTimeLength", 0) for v in case["config"].values()
+                                 if isinstance(v, dict) and v.get("class") == "TradingHaltRule"] or [0])
+        self.stopped_steps = {}
         self.sim = None
         self.sess = None          # index of the current session
         self.step = None          # per-step state
@@ -177,9 +197,14 @@ class C09Monitor:
         self.res.violation(clause, mech, d)
 
     def halt_in_force(self):
+        """a halt can be in force only while some market is stopped, and no halt lasts longer than the longest
+        configured haltingTimeLength (+1 step for the resumption at the step after)."""
         if not self.has_halt_rule or self.sim is None:
             return False
-        return any(not m.is_running for m in self.sim.markets)
+        stopped = [m for m in self.sim.markets if not m.is_running]
+        if not stopped:
+            return False
+        return any(self.stopped_steps.get(m.market_id, 0) <= self.max_halt_len + 1 for m in stopped)
 
     def flush_pending(self, why):
         """an accepted order/cancel must have been followed by a round on its market."""
@@ -264,6 +289,7 @@ class C09Monitor:
             n = type(ev["log"]).__name__
             if n == "SessionBeginLog":
                 self.sess = ev["log"].session.session_id
+                self.stopped_steps = {}
                 c = self.cfg()
                 if not c["withOrderPlacement"]:
                     res.count("class/non_placement_session")
@@ -276,6 +302,8 @@ class C09Monitor:
                 self.end_step()
                 self.sess_done = self.sess
             elif n == "MarketStepBeginLog":
+                m = ev["log"].market
+                self.stopped_steps[m.market_id] = 0 if m.is_running else self.stopped_steps.get(m.market_id, 0) + 1
                 if self.step is None:
                     self.new_step()
             elif n == "MarketStepEndLog":
